@@ -111,6 +111,8 @@ impl Indexable for ast::Statement {
 impl Indexable for ast::Include {
     type Output = ();
     fn index(&self, ctx: &mut IndexCtx) -> Option<Self::Output> {
+        #[cfg(feature = "verif")]
+        crate::verif::step();
         let file_id = ctx.current_file_id();
         let include_map = ctx.db.resolved_include_map(file_id);
 
